@@ -12,6 +12,7 @@ verus! {
 //@ item egglog-reports/src/lib.rs struct RunReport
 
 //@ include prelude/egglog_front.vs
+broadcast use stdx::ax_iter_seq_vec;
 
 // ---------------- specification, written from the property statement (C10) ----------------
 pub open spec fn f_default() -> Flags { Flags { updated: false, can_stop: true, iters: 0 } }
